@@ -216,7 +216,7 @@ def witness_cases(thorough: bool):
         cases.append((7, p, n))
     # buffers longer than the largest space packet (65542 octets) and reads that end beyond octet 65536
     for L, p, n in ((65542, 8 * 65542 - 24, 24), (65542, 8 * 65536 - 4, 8), (65542, 8 * 65542 - 8, 8), (65542, 8 * 65542, 0), (70001, 8 * 70000, 8),
-                    (70001, 8 * 69990 + 3, 64)):
+                    (70001, 8 * 69990 + 3, 64), (70001, 0, 8 * 70000), (70001, 8, 8 * 66000), (70001, 5, 8 * 65537 + 3)):
         cases.append((L, p, n))
     if thorough:
         for p in range(0, 8 * 5 + 1):
@@ -235,8 +235,13 @@ def witness_search(ctx: Ctx, thorough: bool):
         site = f"{fi.key}::witness-search"
         bad = None
         try:
-            for pat in PATTERNS:
+            # the last pass repeats the first pattern with DEBUG logging switched on: what a read returns and where it leaves the
+            # cursor does not depend on the logging level
+            for pat, dbg in [(pt, False) for pt in PATTERNS] + [(PATTERNS[0], True)]:
+                h.it.ext["debug_logging"] = dbg
                 for L, p, n in cases:
+                    if dbg and isinstance(L, int) and L > 13:
+                        continue
                     buf = (pat * 160)[:2049] if L == "wide" else (pat[:L] if L <= len(pat) else (pat * (L // len(pat) + 1))[:L])
                     obj = BytesObj(buf, cls="RawPacketData", pos=p)
                     kind, got = h.outcome(f"obj.{meth}(n)", PK, obj=obj, n=n)
@@ -245,15 +250,17 @@ def witness_search(ctx: Ctx, thorough: bool):
                     want = val if meth == "read_as_int" else val.to_bytes((n + 7) // 8, "big")
                     newpos = cursor(h, obj)
                     if kind != "ok" or got != want or type(got).__mro__[-2] is not type(want) or newpos != p + n or bytes(obj) != buf:
-                        bad = (f"buffer {(buf[:16].hex() + ('..' if len(buf) > 16 else '')) or '(empty)'} ({len(buf)} bytes) pos={p} n={n}: {meth} -> "
+                        bad = (f"{'with DEBUG logging enabled: ' if dbg else ''}buffer {(buf[:16].hex() + ('..' if len(buf) > 16 else '')) or '(empty)'} ({len(buf)} bytes) pos={p} n={n}: {meth} -> "
                                f"{('raises ' + got) if kind != 'ok' else _short(got)}, cursor {newpos}; "
                                f"expected {_short(want)}, cursor {p + n}")
                         break
                 if bad:
                     break
         except Unsupported as e:
+            h.it.ext["debug_logging"] = False
             ctx.unknown("R3.w", site, str(e))
             continue
+        h.it.ext["debug_logging"] = False
         ctx.decide(bad is None, "R3.w", site, f"{len(cases) * len(PATTERNS)} (buffer, pos, width) cases agree", bad or "",
                    where=where(fi, fi.node))
     # sequences of reads on ONE object, the cursor also set backwards and far forwards between reads: every read depends
@@ -370,7 +377,8 @@ SPEC = PropSpec(
                  "cursor exactly once by n. This is a proof for all buffers, positions and widths. A witness search "
                  "(abstract interpreter on all (pos, width) of buffers <= 3 bytes x 4 bit patterns, plus wide reads "
                  "up to 96 bits) turns any unprovable variant into a concrete counterexample and cross-checks the proof."
-                 ' R3.w also runs sequences of reads on one object with the cursor set backwards and forwards between reads (no stale window kept on the object).'),
+                 ' R3.w also runs sequences of reads on one object with the cursor set backwards and forwards between reads (no stale window kept on the object).'
+                 ' The witness table also reads the windows of the CCSDS primary-header fields on buffers that are not well-formed packets, and buffers longer than the largest space packet (reads ending beyond octet 65536); the cursor is read the way the program reads it (attribute, class default or property).'),
     rule_doc=("R3.1 one obligation per (path, slice mode) of _extract_bits; R3.2 per feasible path of the two readers; "
               "R3.3 immutability of the buffer class; R3.w witness search per function."),
     assumptions=["CPython semantics of int.from_bytes/to_bytes, >>, &, slicing", "lemma base L1-L8 (re-validated by --selftest)"],
